@@ -19,7 +19,7 @@ ALLKINDS = ['add', 'remove', 'replace', 'move', 'copy', 'test']
 
 
 def run_A(ctx, module, name, consts, invariants=(), properties=(), simulate=None, timeout=3000, respell=False,
-          extra_opt='', exhaustive=True, spec='MCSpec', workers=16, constraint=None):
+          extra_opt='', exhaustive=True, spec='MCSpec', workers=16, constraint=None, legacy=False):
     """Direction A: TLC enumerates (or simulates) behaviours of <module>, every printed transition is replayed."""
     cfg = ctx.write_cfg('run_' + name, spec, consts, invariants=invariants,
                         properties=() if simulate else properties, action_constraint='Emit', constraint=constraint)
@@ -31,7 +31,7 @@ def run_A(ctx, module, name, consts, invariants=(), properties=(), simulate=None
     if not exhaustive:
         ctx.exhaustive = False
     tlc = ctx.tlc_cmd(module, cfg, workers=workers, extra=extra)
-    replay = ctx.build('replay')
+    replay = ctx.build('replay', legacy=legacy)
     tlclog = os.path.join(ctx.scratch, 'tlc_%s.log' % name)
     rargs = [replay, '-prop', ctx.prop, '-seed', str(ctx.seed), '-findings', FINDINGS, '-replays', REPLAYS, '-tlclog', tlclog]
     if respell:
@@ -58,7 +58,8 @@ def run_A(ctx, module, name, consts, invariants=(), properties=(), simulate=None
     ctx.cov['states'] += dist
     ctx.cov['transitions'] += summ['counters'].get('transitions', 0)
     ctx.cov['traces_validated_against_impl'] += summ['counters'].get('transitions', 0)
-    ctx.cov['stages'].append({'stage': name, 'module': module, 'direction': 'A (TLC behaviours replayed into the code)',
+    ctx.cov['stages'].append({'stage': name, 'module': module, 'package': 'legacy root package (staged)' if legacy else 'v5',
+                              'direction': 'A (TLC behaviours replayed into the code)',
                               'tlc_states_generated': gen, 'tlc_distinct_states': dist,
                               'transitions_replayed': summ['counters'].get('transitions', 0),
                               'executions_of_real_code': summ['counters'].get('executions', 0),
@@ -335,6 +336,53 @@ PLANS.update({
                                       'specification: for them C17 is covered only by the differential comparison with encoding/json in the '
                                       'C17 struct stage (see DESIGN.md section 8)'],
         'required_labels': {t: ['Word_invalid', 'Word_valid_obj', 'Word_valid_str', 'Enc_obj', 'Enc_str', 'Enc_num'] for t in ('quick', 'thorough')},
+    },
+})
+
+
+LEGACY_ASSUME = PATCH_ASSUME + [
+    'the legacy root package (import path github.com/evanphx/json-patch) is staged from /repo/patch.go merge.go errors.go as a module; '
+    'only behaviours inside the domain C18 states are compared: the reference succeeds (no root-replacing add, no copy from ""), or the '
+    'first inapplicable operation is a failed test, a remove/move of an absent location or an out-of-range index; test values are spelled '
+    'without escapes and without < > &',
+]
+
+PLANS.update({
+    'C18': {
+        'quick': [AP('d1', S_ALL, [1, 2], V_ALL, [1, 2, 9], 1, legacy=True),
+                  AP('d2', [5, 6], [1, 2], [1, 2, 6, 8, 9], [1, 2, 9], 2, legacy=True)],
+        'thorough': [AP('d1', S_ALL, [1, 2], V_ALL, [1, 2, 9], 1, legacy=True),
+                     AP('d2', [1, 2, 3, 4, 5, 6, 10, 11], [1, 2], V_ALL, [1, 2, 6, 8, 9], 2, legacy=True, timeout=9000)],
+        'rule': PATCH_RULE % 'the legacy package\'s Apply is compared structurally (up to member order, numbers by literal) with the '
+                'specification document, or must fail without a document for the failure kinds C18 lists; both settings of the '
+                'SupportNegativeIndices package variable',
+        'exhaustive': True, 'assumptions': LEGACY_ASSUME,
+        'required_labels': {t: CORE_LABELS + ['TestFailAbsent', 'RemoveAbsentMember', 'AddBadIndex', 'LegacyOutsideDomain'] for t in ('quick', 'thorough')},
+    },
+})
+
+
+def A_equal_legacy(name, level):
+    def run(ctx):
+        consts = {'Level': level, 'EmitOn': 'TRUE', 'Triples': 'FALSE'}
+        run_A(ctx, 'MCEqual', name, consts, invariants=('Reflexive', 'Symmetric', 'NullOnlyNull', 'OrderBlind'), spec='ESpec', legacy=True)
+    return run
+
+
+PLANS.update({
+    'C19': {
+        'quick': [A_merge('m1', 'merge', 2, 2, 1, respell=True, legacy=True), A_merge('df', 'diff', 2, 2, 1, respell=True, legacy=True),
+                  A_merge('cp', 'merge', 1, 2, 2, parts=4, part=None, legacy=True), A_equal_legacy('eq', 2)],
+        'thorough': [A_merge('m1', 'merge', 3, 2, 1, respell=True, legacy=True, timeout=9000),
+                     A_merge('df', 'diff', 3, 2, 1, respell=True, legacy=True, timeout=9000),
+                     A_merge('cp', 'merge', 1, 2, 2, legacy=True, timeout=9000), A_equal_legacy('eq', 2)],
+        'rule': 'the merge, diff, compose and equality universes of C02/C03/C07/C06 replayed into the staged legacy package, restricted to the '
+                'domain C19 states (object/array patches; CreateMergePatch on objects with float64-spelled numbers and a null-free B; '
+                'compose under C07\'s proviso; Equal on container roots without escapes); lines outside that domain are counted under '
+                'LegacyOutsideDomain and not compared; distinct_nontrivial counts compared cases',
+        'exhaustive': True, 'assumptions': MERGE_ASSUME + ['legacy root package staged as a module from /repo/patch.go merge.go errors.go'],
+        'required_labels': {t: ['Merge_obj', 'Merge_arr', 'Create_obj', 'RoundTrip', 'ComposeCompatible', 'Equal_true', 'Equal_false',
+                                'LegacyOutsideDomain'] for t in ('quick', 'thorough')},
     },
 })
 
